@@ -50,7 +50,7 @@ A_RAW_PATH_KEY = os.environ.get('C18_A_RAW_PATH_KEY') == '1'
 # ---------------------------------------------------------------------------------------------
 
 MANIFEST = dict(
-    text="Lean 4 theorems, for every scalar type, every root and every list of steps of any length and nesting: the parser of the repr grammar (the model of eval(repr(x)): `.name`, `.__('name')`, `[index]` with Python's tuple / trailing-comma / `()` / slice rules, `(args, k=v)`, `.__star__()`, the displays `()` `(x,)` `(…)` `[…]` `{…}` `{k: v}`, `set()`, `frozenset()`, `frozenset({…})`, `slice(a, b, c)`, nested `Path(part, …)` with Path.__init__'s flattening, the first part carrying a root other than T) applied to what `_format_t` / `_format_slice` / `format_invocation` / `_format_path` / reprlib's container methods print returns the same argument / the same root and steps (keyword arguments as a dict, a segment-free nested Path as the T it prints as) and an object with the same repr (`c18_roundtrip_arg`, `c18_roundtrip_t`, `c18_roundtrip_path`: one mutual induction over scalars, containers, dict entries, slice objects, nested T and nested Path arguments, items, steps and plain segments; the `path_t` of a Path — a T expression holding plain segments — included); reprlib's limits are modelled (`truncArg`: maxlevel, the per-container limits, the maxlong / maxstring / maxother cuts incl. the cut of a nested T / Path text and of the name in `.__('name')`) and lose nothing when `fitsObj` holds (`c18_limits_lose_nothing`); the limits of the live instance are at least sys.maxsize, so whatever is no larger than sys.maxsize is inside them (`c18_within_maxsize`, `c18_within_min_limit`), and what glom prints with its limits reads back as an object glom prints the same way (`c18_repr_roundtrip`, `c18_model_checks`); forced hypotheses: `c18_cut_counterexample` (a scalar past a limit — seeded change C18-s9, revert of de451ae), `c18_nonfinite_counterexample` (inf / nan), `c18_overlong_counterexample`, `c18_wf_counterexample`, `c18_path_root_counterexample`; `__setstate__ ∘ __getstate__` is the identity (`c18_pickle`); len, p[i], p[a:b:c], values, items, == / != (against a Path, a T expression, anything else), startswith (a Path, a T expression, a text, anything else), Path(p, q), from_t computed on the flat `__ops__` tuple are the same operations on the list of steps for ALL Int index / slice triples (`c18_seq_laws`, with `pySlice` = CPython's slice.indices semantics); glom(t, Path(p, q)) = glom(glom(t, p), q) for wildcard-free paths of any length on any heap (`c18_concat`, from `walk_append` over C01's walk); per-run facts obligation `c18_facts_wf` by `decide` on: the switches of `_format_t` / `_format_path` (dunder guard, `()`, 1-tuple comma, root-aware, plain segments through bbrepr, runs of T steps marked), the pickling tables, Path's len / values / items / __getitem__ against the tuple of steps, and the limits (>= sys.maxsize) / fillvalue / methods of the live `_BBRepr` instance behind `bbrepr` — each fact established on the imported module by a probe battery (exhaustive over small scopes), so that behaviour-preserving rewrites of the source keep it. Model tied to the code by comparing the model's rendered repr text (scalars rendered by a Lean model of int / str / bytes repr; with small limits in a scratch tree also every cut), parse result, pickle result and every sequence operation with the real glom (index / slice triples enumerated exhaustively for lengths 0–5, bounds in [−8, 8]).",
+    text="Lean 4 theorems, for every scalar type, every root and every list of steps of any length and nesting: the parser of the repr grammar (the model of eval(repr(x)): `.name`, `.__('name')`, `[index]` with Python's tuple / trailing-comma / `()` / slice rules, `(args, k=v)`, `.__star__()`, the displays `()` `(x,)` `(…)` `[…]` `{…}` `{k: v}`, `set()`, `frozenset()`, `frozenset({…})`, `slice(a, b, c)`, nested `Path(part, …)` with Path.__init__'s flattening, the first part carrying a root other than T) applied to what `_format_t` / `_format_slice` / `format_invocation` / `_format_path` / reprlib's container methods print returns the same argument / the same root and steps (keyword arguments as a dict, a segment-free nested Path as the T it prints as) and an object with the same repr (`c18_roundtrip_arg`, `c18_roundtrip_t`, `c18_roundtrip_path`: one mutual induction over scalars, containers, dict entries, slice objects, nested T and nested Path arguments, items, steps and plain segments; the `path_t` of a Path — a T expression holding plain segments — included); reprlib's limits are modelled (`truncArg`: maxlevel, the per-container limits, the maxlong / maxstring / maxother cuts incl. the cut of a nested T / Path text and of the name in `.__('name')`) and lose nothing when `fitsObj` holds (`c18_limits_lose_nothing`); the limits of the live instance are at least sys.maxsize, so whatever is no larger than sys.maxsize is inside them (`c18_within_maxsize`, `c18_within_min_limit`), and what glom prints with its limits reads back as an object glom prints the same way (`c18_repr_roundtrip`, `c18_model_checks`); forced hypotheses: `c18_cut_counterexample` (a scalar past a limit — seeded change C18-s9, revert of de451ae), `c18_nonfinite_counterexample` (inf / nan), `c18_overlong_counterexample`, `c18_wf_counterexample`, `c18_path_root_counterexample`; `__setstate__ ∘ __getstate__` is the identity (`c18_pickle`), also for what the sequence operations return — empty selections and `from_t()` included, whose `path_t` holds a root object glom made itself (`c18_seq_pickle`); len, p[i], p[a:b:c], values, items, == / != (against a Path, a T expression, anything else), startswith (a Path, a T expression, a text, anything else), Path(p, q), from_t computed on the flat `__ops__` tuple are the same operations on the list of steps for ALL Int index / slice triples (`c18_seq_laws`, with `pySlice` = CPython's slice.indices semantics); glom(t, Path(p, q)) = glom(glom(t, p), q) for wildcard-free paths of any length on any heap (`c18_concat`, from `walk_append` over C01's walk); per-run facts obligation `c18_facts_wf` by `decide` on: the switches of `_format_t` / `_format_path` (dunder guard, `()`, 1-tuple comma, root-aware, plain segments through bbrepr, runs of T steps marked), the pickling tables, Path's len / values / items / __getitem__ against the tuple of steps, and the limits (>= sys.maxsize) / fillvalue / methods of the live `_BBRepr` instance behind `bbrepr` — each fact established on the imported module by a probe battery (exhaustive over small scopes), so that behaviour-preserving rewrites of the source keep it. Model tied to the code by comparing the model's rendered repr text (scalars rendered by a Lean model of int / str / bytes repr; with small limits in a scratch tree also every cut), parse result, pickle result and every sequence operation with the real glom (index / slice triples enumerated exhaustively for lengths 0–5, bounds in [−8, 8]).",
     note="trusted: Lean kernel + {propext, Classical.choice, Quot.sound}; extractor (extract/facts/c18.py: probes of the imported module); harness/driver (the driver rejects unknown / missing fields); the lexical level: a scalar (int, str, bytes, finite float, None, True, False, Ellipsis, builtin name) is one atomic token — that Python's lexer reads its repr text back as the value, the shortest-digits float repr, and pickle of argument values, are CPython's; bracket matching is lexical; Python's slice semantics (`pySlice`) validated exhaustively against CPython; BEq on expressions in the driver is structural equality of their JSON form; that no Python object is larger than sys.maxsize (`fitsObj … (uniform sys.maxsize)` is a hypothesis of `c18_within_maxsize`, true of every object CPython can hold). Domain: finite floats (inf / nan have no literal: `T(inf)` is not evaluable — outside, `c18_nonfinite_counterexample`); sets / dicts compared in reprlib's printed (sorted) order, dict arguments as dicts (insertion order is not kept by repr); the parts of a slice object (printed by Python's slice.__repr__, i.e. the builtin repr) hold no builtin function and no set of two or more elements; reading §6.6: a segment-free nested Path comes back as the T it prints as, and 'evaluates identically' is read for objects without such a Path in an unevaluated key position (A_RAW_PATH_KEY). A text cut by reprlib is modelled as unreadable (Python may read `...` as Ellipsis: another object) — only reachable when a limit is lowered. Arithmetic-operator reprs and Path.from_text are outside the property. An A-rooted Path has no call / wildcard step (`_t_child` refuses them).",
     technique='Lean 4 proof (parser ∘ formatter = id by mutual induction over the whole argument grammar; reprlib limits as a pass that is the identity inside them, monotone in the limits; sequence laws on the flat tuple; walk_append) + facts obligation by decide over behaviourally established facts (incl. the limits of the live _BBRepr instance) + differential correspondence with exhaustive index/slice enumeration',
     ref='DESIGN.md §3 C18, §6.6')
@@ -74,7 +74,9 @@ RULE = ('repr: random objects of 0–8 steps (quick) / 0–10 (thorough): T expr
         'prefix / unrelated operands handed over as a Path or as its path_t (a T expression), == / != with '
         'non-Paths, startswith with a text and with non-Paths (TypeError), Path(p, q), over segments that '
         'include big ints and containers; repr cases also over the path_t of a Path (a T expression holding '
-        'plain segments). '
+        'plain segments); the RESULTS of the sequence operations as values: every index in [-4, 4] and every '
+        'slice over {None} ∪ [-4, 4] × {None, 1, -1, 2} (empty selections included), from_t, values, items, '
+        'Path(p, q) on T-, S- and A-rooted paths of 0–3 steps, each followed by pickle / deepcopy / copy. '
         'concat: C01 heap targets with a valid walk split at a random point, and one-edit bad '
         'segments. non-trivial = an object with >= 2 steps or a nested / container argument; an index / '
         'slice on a path of length >= 1; any concat case; distinct = distinct case')
@@ -539,9 +541,35 @@ def as_bool(v):
 NOT_PATHS = ['a', ('a',), None, 5, ['a'], {'a': 1}]
 
 
+class RoundTripFailed(Exception):
+    pass
+
+
+def round_trip(how, v):
+    """the result of a sequence operation after pickle / copy.deepcopy / copy.copy (case field "rt"): a
+    Path that `p[a:b]` or `from_t()` returns is a value like any other — that it can be pickled and
+    copied, and comes back with the same root and steps, is part of "pickling round-trips likewise"
+    (seeded change C18-s11: a bare-root path_t that is not the singleton could no longer be pickled)"""
+    import copy
+    if not how:
+        return v
+    try:
+        if how == 'pickle':
+            return pickle.loads(pickle.dumps(v))
+        if how == 'deepcopy':
+            return copy.deepcopy(v)
+        if how == 'copy':
+            return copy.copy(v)
+    except Exception as e:
+        raise RoundTripFailed('%s raised %s' % (how, type(e).__name__))
+    raise ValueError(how)
+
+
 def run_seq(case):
     from glom import Path
     op = case['op']
+    how = case.get('rt')
+    rt = lambda v: round_trip(how, v)
 
     def other(o):
         """the other operand: a Path, or (\"as\": \"t\") its path_t — a T expression"""
@@ -550,21 +578,21 @@ def run_seq(case):
     try:
         p = build_path(case['root'], case['steps'])
         if op == 'len':
-            n = len(p)
+            n = rt(len(p))
             return {'nat': n} if type(n) is int and n >= 0 else {'other': 'len: %r' % (n,)}
         if op == 'values':
-            vs = p.values()
+            vs = rt(p.values())
             if type(vs) is not tuple:
                 return {'other': 'values: not a tuple'}
             return {'vals': [argtext(v) for v in vs]}
         if op == 'items':
-            its = p.items()
+            its = rt(p.items())
             if type(its) is not tuple or any(type(x) is not tuple or len(x) != 2 or type(x[0]) is not str
                                              for x in its):
                 return {'other': 'items: not a tuple of (op, arg) pairs'}
             return {'pairs': [[o, argtext(v)] for o, v in its]}
         if op == 'from_t':
-            return {'path': enc_pairs(p.from_t())}
+            return {'path': enc_pairs(rt(p.from_t()))}
         if op == 'eq_other':
             # neither a Path nor a T: never equal (and != is its negation)
             rs = [(p == x, p != x) for x in NOT_PATHS]
@@ -580,11 +608,11 @@ def run_seq(case):
                 return {'other': 'startswith(%r) returned %r' % (x, r)}
             return 'TypeError'
         if 'idx' in op:
-            return {'path': enc_pairs(p[op['idx']])}
+            return {'path': enc_pairs(rt(p[op['idx']]))}
         if 'slice' in op:
-            return {'path': enc_pairs(p[slice(*op['slice'])])}
+            return {'path': enc_pairs(rt(p[slice(*op['slice'])]))}
         if 'eq' in op:
-            return as_bool(p == other(op['eq']))
+            return as_bool(rt(p == other(op['eq'])))
         if 'ne' in op:
             return as_bool(p != other(op['ne']))
         if 'startswith' in op:
@@ -592,9 +620,11 @@ def run_seq(case):
         if 'startswith_str' in op:
             return as_bool(p.startswith(argvalue(op['startswith_str'])))
         if 'concat' in op:
-            return {'path': enc_pairs(Path(p, build_path('T', op['concat'])))}
+            return {'path': enc_pairs(rt(Path(p, build_path('T', op['concat']))))}
     except Malformed:
         return {'other': 'malformed __ops__'}
+    except RoundTripFailed as e:
+        return {'other': str(e)}
     except IndexError:
         return 'IndexError'
     except ValueError:
@@ -1202,7 +1232,32 @@ def gen_seq_random(r, n_cases):
                   {'root': oroot, 'steps': other, 'as': r.choice(['path', 'path', 't'])}}
         else:
             op = {'concat': seq_steps(r, r.randint(0, 4))}
-        yield {'kind': 'seq', 'root': root, 'steps': steps, 'op': op}
+        case = {'kind': 'seq', 'root': root, 'steps': steps, 'op': op}
+        if r.random() < 0.45 and (op in ('len', 'values', 'items', 'from_t') or
+                                  any(k in op for k in ('idx', 'slice', 'concat', 'eq'))):
+            case['rt'] = r.choice(RTS)
+        yield case
+
+
+RTS = ['pickle', 'deepcopy', 'copy']
+
+
+def gen_seq_roundtrips():
+    """the results of the sequence operations as values: for T-, S- and A-rooted paths of 0–3 steps, every
+    index in [-4, 4], every slice a:b:c over {None} ∪ [-4, 4] × {None, 1, -1, 2} (the empty selections
+    among them), from_t(), values(), items() and Path(p, q), each followed by pickle / deepcopy / copy"""
+    rng = random.Random(1811)
+    vals = [None] + list(range(-4, 5))
+    k = 0
+    for n in range(0, 4):
+        for root in ('T', 'S', 'A'):
+            steps = seq_steps(rng, n)
+            ops = ['from_t', 'values', 'items', 'len', {'concat': []}, {'concat': seq_steps(rng, 1, simple=True)}]
+            ops += [{'idx': i} for i in range(-4, 5)]
+            ops += [{'slice': [a, b, c]} for a in vals for b in vals for c in (None, 1, -1, 2)]
+            for op in ops:
+                k += 1
+                yield {'kind': 'seq', 'root': root, 'steps': steps, 'op': op, 'rt': RTS[k % 3]}
 
 
 def gen_concat(r, tier, n_cases):
@@ -1252,6 +1307,7 @@ def generate(rng, tier, scale, **focus):
         yield case
     yield from gen_seq_random(rng, (400 if tier == 'quick' else 12000) * scale)
     yield from gen_concat(rng, tier, (300 if tier == 'quick' else 8000) * scale)
+    yield from gen_seq_roundtrips()
     if not focus:
         yield from gen_seq_exhaustive()
 
